@@ -132,11 +132,14 @@ func (r *reader) ConsumeByKey(key []byte, keyHash []byte, offset, maxCount int64
 		return OffsetInvalid, nil, err
 	}
 
+	// the next offset is read before the key is looked up: a message published
+	// in between would otherwise be skipped without ever being returned
+	nextOffset, err := ix.GetNextOffset()
+	if err != nil {
+		return OffsetInvalid, nil, err
+	}
+
 	if offset == OffsetNewest {
-		nextOffset, err := ix.GetNextOffset()
-		if err != nil {
-			return OffsetInvalid, nil, err
-		}
 		return nextOffset, nil, nil
 	}
 
@@ -145,10 +148,6 @@ func (r *reader) ConsumeByKey(key []byte, keyHash []byte, offset, maxCount int64
 	case nil:
 		break
 	case index.ErrKeyNotFound:
-		nextOffset, err := ix.GetNextOffset()
-		if err != nil {
-			return OffsetInvalid, nil, err
-		}
 		return nextOffset, nil, nil
 	default:
 		return OffsetInvalid, nil, err
@@ -178,10 +177,6 @@ func (r *reader) ConsumeByKey(key []byte, keyHash []byte, offset, maxCount int64
 	}
 
 	if len(msgs) == 0 {
-		nextOffset, err := ix.GetNextOffset()
-		if err != nil {
-			return OffsetInvalid, nil, err
-		}
 		return nextOffset, nil, nil
 	}
 
